@@ -1,7 +1,12 @@
 """C07 driver: the real utils.fee / max_tx_fee / tiered_reference_script_fee on swept parameters, and the real
-TransactionBuilder.build_and_sign on fee scenarios (every `_estimate_fee` call is recorded)."""
+TransactionBuilder.build_and_sign on fee scenarios (every `_estimate_fee` call is recorded).
+
+Scenario UTxOs (`how`): explicit (add_input), script (add_script_input), collateral (builder.collaterals), refonly (only
+named as the script source of a spend), ref (an extra reference input the transaction does not need), pool (served by
+the chain context for its address: chosen by the builder itself through add_input_address or as automatic collateral),
+potential (builder.potential_inputs)."""
 from _pre import *
-import hashlib
+import hashlib, random
 from fractions import Fraction
 from pycardano import (Address, Asset, AssetName, AuxiliaryData, AlonzoMetadata, Metadata, ExecutionUnits, MultiAsset,
                        Network, PaymentSigningKey, PaymentVerificationKey, PlutusV2Script, PlutusV1Script, Redeemer,
@@ -45,7 +50,7 @@ def mk_params(p):
 
 class Ctx(ChainContext):
     def __init__(self, params, utxos, eval_units):
-        self._pp, self._utxos, self._eval = params, utxos, eval_units
+        self._pp, self._pool, self._eval = params, utxos, eval_units
 
     @property
     def protocol_param(self):
@@ -71,7 +76,7 @@ class Ctx(ChainContext):
         return 2000
 
     def _utxos(self, address):
-        return list(self._utxos.get(address, []))
+        return list(self._pool.get(str(address), []))
 
     def submit_tx_cbor(self, cbor):
         pass
@@ -162,6 +167,27 @@ def script_len(s):
     return len(s.to_cbor()) if isinstance(s, NativeScript) else len(s)
 
 
+def pk_leaves(spec, acc):
+    """key leaves of a native-script spec (the builder asks a placeholder witness for every one of them)"""
+    if spec[0] == 'pk':
+        acc.add(key(spec[1])[1].hash().payload)
+    elif spec[0] in ('all', 'any'):
+        for x in spec[1]:
+            pk_leaves(x, acc)
+    return acc
+
+
+def utxo_table(sc, utxos):
+    """the scenario's UTxO set as the ledger sees it: outref -> (bytes of the script on the output, key that locks it)"""
+    rows = []
+    for lit, u in zip(sc['utxos'], utxos):
+        s = u.output.script
+        pp = u.output.address.payment_part
+        rows.append([lit['id'], lit['ix'], -1 if s is None else script_len(s),
+                     pp.payload.hex() if lit['addr'][0] in ('ent', 'base') else None])
+    return rows
+
+
 def build_case(case):
     sc = case['scenario']
     utxos = [mk_utxo(u) for u in sc['utxos']]
@@ -169,7 +195,7 @@ def build_case(case):
     pool = {}
     for u, lit in zip(utxos, sc['utxos']):
         if lit.get('how') == 'pool':
-            pool.setdefault(u.output.address, []).append(u)
+            pool.setdefault(str(u.output.address), []).append(u)
     ctx = Ctx(mk_params(case['params']), pool, {k: tuple(v) for k, v in sc.get('eval', {}).items()})
     calls, last_fake = [], {}
     orig_est, orig_fake = TransactionBuilder._estimate_fee, TransactionBuilder._build_full_fake_tx
@@ -178,7 +204,8 @@ def build_case(case):
         tx = orig_fake(self)
         last_fake[id(self)] = [len(tx.to_cbor()), tx.transaction_body.fee,
                                [o.amount.coin if isinstance(o.amount, Value) else o.amount
-                                for o in tx.transaction_body.outputs]]
+                                for o in tx.transaction_body.outputs],
+                               len(tx.transaction_witness_set.vkey_witnesses or [])]
         return tx
 
     def est(self):
@@ -187,6 +214,7 @@ def build_case(case):
         return r
 
     TransactionBuilder._estimate_fee, TransactionBuilder._build_full_fake_tx = est, fake
+    random.seed(hashlib.sha256(json.dumps(sc, sort_keys=True).encode()).digest())      # coin selection draws from `random`
     try:
         try:
             b = TransactionBuilder(ctx)
@@ -212,6 +240,10 @@ def build_case(case):
                     b.add_script_input(u, script=script, datum=sp.get('datum'), redeemer=red)
                 elif how == 'collateral':
                     b.collaterals.append(u)
+                elif how == 'ref':                         # a reference input nothing in the transaction needs
+                    b.reference_inputs.add(u)
+                elif how == 'potential':
+                    b.potential_inputs.append(u)
                 elif how in ('pool', 'refonly'):
                     pass
                 else:
@@ -239,7 +271,9 @@ def build_case(case):
                 b.ttl = sc['ttl']
             change = mk_addr(sc['change']) if sc.get('change') is not None else None
             sks = [key(i)[0] for i in sc['signers']]
-            tx = b.build_and_sign(sks, change_address=change, merge_change=bool(sc.get('merge')))
+            cchange = mk_addr(sc['collateral_change']) if sc.get('collateral_change') is not None else None
+            tx = b.build_and_sign(sks, change_address=change, merge_change=bool(sc.get('merge')),
+                                  collateral_change_address=cchange)
         except Exception as e:
             return {'err': err_kind(e), 'msg': str(e)[:200]}
         mine = [c for c in calls if c[0] == id(b)]
@@ -257,9 +291,20 @@ def build_case(case):
         omitted = len(b.build_witness_set().to_cbor()) - len(b.build_witness_set(True).to_cbor())
         required = b._build_required_vkeys()
         nwit = len(tx.transaction_witness_set.vkey_witnesses or [])
+        script_keys = set()
+        for lit in sc['utxos']:
+            spec = (lit.get('spend') or {}).get('script')
+            if spec is not None and spec[0] == 'native':
+                pk_leaves(spec[1], script_keys)
+        for pol in (sc.get('mint') or {}).get('policies', []):
+            pk_leaves(pol, script_keys)
         return {'tx': tx.to_cbor().hex(), 'calls': [[c[1][0], c[1][1], c[1][2], c[2]] for c in mine],
                 'ref_builder': b._ref_script_size(), 'ref_ledger': ref_ledger, 'omitted': omitted,
-                'fake_wit': b._witness_count(), 'real_wit': nwit, 'required': len(required),
+                'fake_wit': mine[-1][1][3] if mine else b._witness_count(), 'real_wit': nwit, 'required': len(required),
+                'table': utxo_table(sc, utxos), 'script_keys': sorted(k.hex() for k in script_keys),
+                'n_collateral': len(body.collateral or []), 'n_ref_inputs': len(body.reference_inputs or []),
+                'coll_refs': [[i.transaction_id.payload.hex(), i.index] for i in (body.collateral or [])],
+                'in_refs': [[i.transaction_id.payload.hex(), i.index] for i in body.inputs],
                 'fee': body.fee, 'size': len(tx.to_cbor()), 'n_inputs': len(body.inputs),
                 'n_outputs': len(body.outputs),
                 'final_coins': [o.amount.coin if isinstance(o.amount, Value) else o.amount for o in body.outputs],
